@@ -939,10 +939,15 @@ class Buffer(Iterable):
             return
         self._stopped.set()
         tasks = self._tasks
-        while not tasks.empty():
-            _ = tasks.get()
-        # `tasks` is now empty. The thread needs to put at most one
-        # more element into the queue, which is safe.
+        while self._worker.is_alive():
+            # Keep draining until the worker has exited: it may be blocked in `put`,
+            # and may still have up to three more items to put (the current element,
+            # then either `FINISHED` or `STOPPED` plus the exception object),
+            # which can be more than the queue holds.
+            try:
+                _ = tasks.get(timeout=0.01)
+            except queue.Empty:
+                pass
         self._worker.join()
         self._stopped = None
 
